@@ -28,6 +28,7 @@ struct Verdict {
 	std::set<std::string> labels;
 	std::map<std::string, long> stat;
 	bool completed = false; // the child reached its orderly end
+	std::vector<std::string> transcripts; // per connection: canonical rendering of everything the daemon sent (differential oracles)
 	void add(const std::string &rule, const std::string &detail) { if (v.size() < 20) v.push_back({rule, detail}); }
 	bool failed() const { return !v.empty(); }
 };
@@ -150,6 +151,8 @@ public:
 	int sigterm_count = 0;
 	size_t max_alloc_seen = 0;
 	Value *batch_sink = nullptr; int batch_conn = -1;
+	struct Prepared { size_t op_index = (size_t)-1; int kc = -1; std::string rest; std::vector<ModelEvent> evs; } prepared;
+	std::string *capture = nullptr; // when set, deliveries are recorded instead of sent
 	size_t max_message_size = 512;
 	std::function<void(World &)> custom_check; // property specific oracle at quiescence
 	std::function<void(World &)> custom_final;
@@ -201,6 +204,7 @@ public:
 	bool step_single = false;
 	void deliver(int kc, const std::string &bytes)
 	{
+		if (capture) { *capture += bytes; return; }
 		if (sc.dribble != 0 && step_single && bytes.size() >= 2) {
 			uint64_t h = (uint64_t)sc.dribble * 0x9E3779B97F4A7C15ull + step_no * 0xC2B2AE3D27D4EB4Full + bytes.size(); h ^= h >> 31;
 			size_t cut = 1 + (size_t)(h % (bytes.size() - 1));
@@ -309,6 +313,8 @@ public:
 			int ep = c.transport == 0 ? simk::EP_RAW : c.transport == 1 ? simk::EP_HTTP : simk::EP_UDS;
 			int origin = ((op.b % 4) + 4) % 4;
 			c.kc = k.connect(ep, origin);
+			if (sc.chunk_all > 0) k.conns[c.kc].chunk_all = (size_t)sc.chunk_all;
+			if (sc.junk_all >= 0) k.conns[c.kc].junk = sc.junk_all;
 			char keybuf[17]; snprintf(keybuf, sizeof keybuf, "k%015d", (int)cc.size());
 			c.ws_key = codec::base64(std::string(keybuf, 16));
 			cc.push_back(c);
@@ -352,6 +358,15 @@ public:
 		}
 		if (c.poisoned && op.kind != END && op.kind != WPLAN && op.kind != DRAIN) { vd.stat["noop"]++; return; }
 		switch (op.kind) {
+		case PREFIX: {
+			if (c.ws) { vd.stat["noop"]++; return; }
+			if (op.a == 0) { deliver(c.kc, codec::be32(0)); vd.labels.insert("zero-length-prefix"); return; }
+			static const uint32_t big[] = {513, 514, 1024, 65536, 0x7fffffffu, 0xffffffffu, 0x80000000u};
+			deliver(c.kc, codec::be32(big[(size_t)op.a % 7]));
+			{ ModelEvent e; e.k = ModelEvent::INVALID; e.conn = ci; e.seq = evs.size(); evs.push_back(e); }
+			vd.labels.insert("over-long-prefix");
+			return;
+		}
 		case PARTIAL: {
 			Value r = Value::obj(); r.set("id", Value::str("partial")); r.set("method", Value::str(op.b % 2 ? "info" : "get")); r.set("params", Value::obj());
 			std::string framed = frame_for(c, js::dump(r));
@@ -374,7 +389,7 @@ public:
 		}
 		case BYTES: k.send(c.kc, op.s); vd.stat["raw_bytes"] += (long)op.s.size(); c.poisoned = true; c.unchecked = true; return; // arbitrary bytes: only robustness is judged on this stream
 		case MSG: {
-			k.send(c.kc, frame_for(c, op.s));
+			deliver(c.kc, frame_for(c, op.s));
 			ModelEvent e; e.conn = ci; e.seq = evs.size();
 			if (js::parse(op.s, e.msg)) e.k = ModelEvent::MESSAGE; else e.k = ModelEvent::INVALID;
 			evs.push_back(e);
@@ -813,6 +828,24 @@ public:
 		}
 	}
 
+	// routed request ids embed a counter and a heap address: rename them by order of appearance
+	std::map<std::string, std::string> rid_names;
+	std::string canon(const std::string &raw)
+	{
+		std::string out = raw;
+		size_t pos = 0;
+		while ((pos = out.find("_0x", pos)) != std::string::npos) {
+			size_t q = out.rfind('"', pos), e = out.find('"', pos);
+			if (q == std::string::npos || e == std::string::npos) break;
+			std::string rid = out.substr(q + 1, e - q - 1);
+			auto it = rid_names.find(rid);
+			if (it == rid_names.end()) it = rid_names.emplace(rid, "RID" + std::to_string(rid_names.size())).first;
+			out.replace(q + 1, e - q - 1, it->second);
+			pos = q + 1 + it->second.size();
+		}
+		return out;
+	}
+
 	static bool utf8_ok(const std::string &s)
 	{
 		size_t i = 0, n = s.size();
@@ -1069,6 +1102,17 @@ public:
 		for (size_t i = next_op; i < j; i++) if (sc.ops[i].kind == BATCH && j - next_op > 1) { bool hasadv = false; for (size_t q = next_op; q < j; q++) if (sc.ops[q].kind == ADVANCE) hasadv = true; if (hasadv) { j = next_op + 1; break; } }
 		std::vector<ModelEvent> evs;
 		step_single = (j - next_op == 1) && sc.ops[next_op].kind != BATCH;
+		auto plain_request = [&](const Op &o) { return o.kind == ADD || o.kind == REMOVE || o.kind == CHANGE || o.kind == FETCH || o.kind == UNFETCH || o.kind == GET || o.kind == SET || o.kind == CALL || o.kind == CONFIG || o.kind == INFO || o.kind == RAWREQ || o.kind == MUTREQ || o.kind == MSG; };
+		if (prepared.op_index == next_op && step_single) {
+			// the first bytes of this message arrived during the previous step; now the rest
+			simk::K().send(prepared.kc, prepared.rest);
+			for (auto &e : prepared.evs) { e.seq = evs.size(); evs.push_back(e); }
+			vd.stat[std::string("op_") + kind_names[sc.ops[next_op].kind]]++;
+			prepared = Prepared();
+			next_op = j; step_no++;
+			apply_model(evs);
+			return true;
+		}
 		for (size_t i = next_op; i < j; i++) {
 			const Op &op = sc.ops[i];
 			if (op.kind != BATCH) { do_op(op, evs); continue; }
@@ -1094,9 +1138,27 @@ public:
 			i = k - 1;
 		}
 		if (j - next_op > 1) vd.labels.insert("joined-step");
+		size_t cur_op = next_op;
 		next_op = j;
 		step_no++;
 		apply_model(evs);
+		// (after the model saw this step, so that symbolic references of the next operation resolve as they would one step later)
+		if (sc.early_prefix != 0 && step_single && j < sc.ops.size() && plain_request(sc.ops[j]) && !sc.ops[j].join && (j + 1 >= sc.ops.size() || !sc.ops[j + 1].join)) {
+			int ci_now = live_conn(sc.ops[cur_op].conn), ci_next = live_conn(sc.ops[j].conn);
+			bool cur_is_conn_op = sc.ops[cur_op].kind != CONNECT && sc.ops[cur_op].kind != ADVANCE && sc.ops[cur_op].kind != FAULT;
+			if (cur_is_conn_op && ci_next >= 0 && ci_next != ci_now && !cc[ci_next].client_ended && !cc[ci_next].poisoned && simk::K().conns[cc[ci_next].kc].accepted && !simk::K().conns[cc[ci_next].kc].daemon_closed) {
+				std::string bytes; std::vector<ModelEvent> pe;
+				capture = &bytes; do_op(sc.ops[j], pe); capture = nullptr;
+				vd.stat[std::string("op_") + kind_names[sc.ops[j].kind]]--;
+				if (bytes.size() >= 2) {
+					uint64_t h = (uint64_t)sc.early_prefix * 0x9E3779B97F4A7C15ull + j * 0x632BE59BD9B4E019ull; h ^= h >> 29;
+					size_t cut = 1 + (size_t)(h % (bytes.size() - 1));
+					simk::K().send(cc[ci_next].kc, bytes.substr(0, cut));
+					prepared.op_index = j; prepared.kc = cc[ci_next].kc; prepared.rest = bytes.substr(cut); prepared.evs = pe;
+					vd.stat["early_prefixes"]++;
+				} else { prepared.op_index = j; prepared.kc = cc[ci_next].kc; prepared.rest = bytes; prepared.evs = pe; }
+			}
+		}
 		return true;
 	}
 
@@ -1190,6 +1252,25 @@ public:
 		}
 		if (opt.hygiene_check) for (auto &h : k.hygiene) vd.add("C07/hygiene", h);
 		if (custom_final) custom_final(*this);
+		for (size_t ci = 0; ci < cc.size(); ci++) {
+			if ((int)ci == probe_conn) continue;
+			decode((int)ci);
+			CConn &c = cc[ci];
+			std::string t = "conn" + std::to_string(ci) + (k.conns[c.kc].daemon_closed && !c.client_ended ? " closed-by-daemon" : "") + (c.ws ? " http=" + std::to_string(c.http.status) : "") + "\n";
+			{
+				// runs of consecutive error answers are compared as sets: the daemon emits the shutdown errors of one teardown in
+				// routing-table order, which depends on heap addresses inside the routed ids, not on the input
+				std::vector<std::string> run;
+				auto flush = [&]() { std::sort(run.begin(), run.end()); for (auto &x : run) t += x + "\n"; run.clear(); };
+				for (size_t i = 0; i < c.raw.size(); i++) {
+					bool is_err = c.msgs[i].is_obj() && c.msgs[i].has("error") && !c.msgs[i].has("method");
+					if (is_err) run.push_back(canon(c.raw[i])); else { flush(); t += canon(c.raw[i]) + "\n"; }
+				}
+				flush();
+			}
+			for (auto &f : c.ctrl) t += "ctrl op=" + std::to_string(f.opcode) + " " + tohex(f.payload) + "\n";
+			vd.transcripts.push_back(t);
+		}
 		for (auto &s : m.stat) vd.stat["m_" + s.first] = s.second;
 		vd.stat["steps"] = (long)step_no;
 		vd.stat["max_alloc"] = (long)max_alloc_seen;
